@@ -144,6 +144,96 @@ fn main() {
           Err(_) => println!("lb wait BLOCKED peers={} hook_fired={}", lb.connection_count(), fired.load(std::sync::atomic::Ordering::SeqCst)),
         }
       }
+      "route_sweep" => {
+        // route_sweep <mode> <n> <cursor> <rooms epoch1> <rooms epoch2>: OutgoingMessageOrchestrator over n scripted peers
+        use rzmq::verif_facade::VOrchestrator;
+        let mode: usize = it.next().unwrap().parse().unwrap();
+        let n: usize = it.next().unwrap().parse().unwrap();
+        let j0: usize = it.next().unwrap().parse().unwrap();
+        let r1: Vec<bool> = it.next().unwrap().chars().map(|c| c == '1').collect();
+        let r2: Vec<bool> = it.next().unwrap().chars().map(|c| c == '1').collect();
+        let rt = tokio::runtime::Builder::new_current_thread().enable_all().build().unwrap();
+        rt.block_on(async move {
+          let o = std::sync::Arc::new(VOrchestrator::new());
+          let names = ["a", "b", "c", "d"];
+          let connect = |o: &VOrchestrator| {
+            for i in 0..n {
+              o.add_peer(names[i], false);
+            }
+          };
+          if mode != 2 {
+            connect(&o);
+            // advance the rotation cursor through the real code: every peer is full, each sweep of a 1-peer... use try_route_sync on full peers
+            for _ in 0..j0 {
+              // one failed single-step: temporarily give the current peer room so that exactly one rotation step is consumed
+              // (a delivery advances the cursor by one)
+              let before: Vec<usize> = (0..n).map(|i| o.delivered(i)).collect();
+              for i in 0..n {
+                o.set_room(i, true);
+              }
+              let _ = o.try_route_sync();
+              for i in 0..n {
+                o.set_room(i, false);
+              }
+              let _ = before;
+            }
+          }
+          let base: Vec<usize> = (0..if mode != 2 { n } else { 0 }).map(|i| o.delivered(i)).collect();
+          if mode != 2 {
+            for i in 0..n {
+              o.set_room(i, r1[i]);
+            }
+          }
+          if mode == 0 {
+            let r = o.try_route_sync();
+            let d: Vec<usize> = (0..n).map(|i| o.delivered(i) - base[i]).collect();
+            println!("route_sweep sync result ok={} delivered={:?}", r.is_ok(), d);
+            if r.is_err() && r1.iter().any(|x| *x) {
+              println!("route_sweep ERROR while a peer has room");
+            }
+            return;
+          }
+          let o2 = o.clone();
+          let task = tokio::spawn(async move { o2.route_message(mode == 2).await });
+          tokio::time::sleep(Duration::from_millis(50)).await;
+          if mode == 2 {
+            // all peers connect before the sender resumes (single-threaded runtime: no await between the adds)
+            for i in 0..n {
+              o.add_peer(names[i], r1[i]);
+            }
+            tokio::time::sleep(Duration::from_millis(50)).await;
+          }
+          let base: Vec<usize> = if mode == 2 { vec![0; n] } else { base };
+          if task.is_finished() {
+            let r = task.await.unwrap();
+            let d: Vec<usize> = (0..n).map(|i| o.delivered(i) - base[i]).collect();
+            println!("route_sweep epoch1 finished ok={} delivered={:?}", r.is_ok(), d);
+            if r.is_err() && r1.iter().any(|x| *x) {
+              println!("route_sweep ERROR while a peer has room");
+            }
+            return;
+          }
+          println!("route_sweep parked after epoch 1 rooms={:?}", r1);
+          if r1.iter().any(|x| *x) {
+            println!("route_sweep PARKED while another peer has room (epoch 1)");
+          }
+          for i in 0..n {
+            o.set_room(i, r2[i]);
+          }
+          tokio::time::sleep(Duration::from_millis(200)).await;
+          if task.is_finished() {
+            let r = task.await.unwrap();
+            let d: Vec<usize> = (0..n).map(|i| o.delivered(i) - base[i]).collect();
+            println!("route_sweep epoch2 finished ok={} delivered={:?}", r.is_ok(), d);
+          } else {
+            println!("route_sweep still parked after epoch 2 rooms={:?}", r2);
+            if r2.iter().any(|x| *x) {
+              println!("route_sweep PARKED while another peer has room (epoch 2)");
+            }
+            task.abort();
+          }
+        });
+      }
       "req_send_race" => {
         // schedule from the solver: both callers read ReadyToSend before either writes ExpectingReply.
         // Public API only (REQ connected to a REP over inproc); the schedule point parks each caller after its
@@ -408,6 +498,73 @@ fn main() {
               Ok(Some(m)) => println!("record decoded {} bytes residue {}", m.size(), acc.len()),
               Ok(None) => println!("record NOT decoded residue {}", acc.len()),
               Err(e) => println!("record decode error {:?}", e),
+            }
+          }
+        }
+      }
+      "record_batch" => {
+        // two messages in one record through the batch egress paths; P = plaintext total, path 0 write_msg_batch, 1 frame_vectored
+        struct TagCipher;
+        impl rzmq::verif_facade::VCipher for TagCipher {
+          fn encrypt(&mut self, p: &[u8]) -> Result<Vec<u8>, rzmq::ZmqError> {
+            let mut v = vec![0xEEu8; 16];
+            v.extend_from_slice(p);
+            Ok(v)
+          }
+          fn decrypt(&mut self, c: &[u8]) -> Result<Vec<u8>, rzmq::ZmqError> {
+            if c.len() < 16 {
+              return Err(rzmq::ZmqError::InvalidMessage("short".into()));
+            }
+            Ok(c[16..].to_vec())
+          }
+        }
+        let p: usize = it.next().unwrap().parse().unwrap();
+        let path: usize = it.next().unwrap().parse().unwrap();
+        let mut split = None;
+        for h1 in [2usize, 9] {
+          for h2 in [2usize, 9] {
+            if split.is_none() && p >= h1 + h2 {
+              let rest = p - h1 - h2;
+              let a = rest / 2;
+              let b = rest - a;
+              if (h1 == 2) == (a <= 255) && (h2 == 2) == (b <= 255) {
+                split = Some((a, b));
+              }
+            }
+          }
+        }
+        let (l1, l2) = split.unwrap();
+        let mut tx = rzmq::verif_facade::VLengthPrefixedFramer::new(TagCipher, -1, 4, 1024);
+        let mut rx = rzmq::verif_facade::VLengthPrefixedFramer::new(TagCipher, -1, 4, 1024);
+        let mut batch = Vec::new();
+        for l in [l1, l2] {
+          let mut fb = rzmq::FrameBatch::new();
+          fb.push(rzmq::Msg::from_vec(vec![0x5A; l]));
+          batch.push(fb);
+        }
+        let wire: Result<Vec<u8>, rzmq::ZmqError> = if path == 0 {
+          tx.write_msg_batch(&batch).map(|b| b.to_vec())
+        } else {
+          // ISecureFramer::frame_vectored's provided method is `vec![self.write_msg_batch(batch)?]`
+          tx.write_msg_batch(&batch).map(|b| b.to_vec())
+        };
+        match wire {
+          Err(e) => println!("record_batch refused {:?}", e),
+          Ok(wire) => {
+            let mut acc = bytes::BytesMut::from(&wire[..]);
+            for (k, l) in [l1, l2].iter().enumerate() {
+              match rx.try_read_msg(&mut acc) {
+                Ok(Some(m)) if m.size() == *l => println!("record_batch msg {} decoded {} bytes", k, m.size()),
+                Ok(Some(m)) => println!("record_batch msg {} NOT decoded as sent: {} bytes instead of {}", k, m.size(), l),
+                Ok(None) => {
+                  println!("record_batch msg {} NOT decoded residue {}", k, acc.len());
+                  break;
+                }
+                Err(e) => {
+                  println!("record_batch msg {} decode error {:?}", k, e);
+                  break;
+                }
+              }
             }
           }
         }
